@@ -202,6 +202,51 @@ pub fn family(n: usize, seed: u64, level: usize) -> Vec<TT> {
     dedup_sorted(v)
 }
 
+/// Every 3-variable function g embedded as g(x_a, x_b, x_c) in an n-variable table, for a
+/// set of ordered variable triples: all orders of {0,1,2}, {n-3,n-2,n-1}, {0,3,n-1},
+/// {2,n-2,n-1}, {1,5,6} (where they fit); `all_triples`: every ordered triple. These are the
+/// multiplexers, and/or/xor of literals and "a literal gating a small function" at every
+/// position regime (in-word, word-selecting, mixed), with many equal, all-zero and all-ones words.
+pub fn embedded3(n: usize, all_triples: bool) -> Vec<TT> {
+    if n < 3 {
+        return Vec::new();
+    }
+    let mut triples: Vec<[usize; 3]> = Vec::new();
+    if all_triples {
+        for a in 0..n {
+            for b in 0..n {
+                for c in 0..n {
+                    if a != b && a != c && b != c {
+                        triples.push([a, b, c]);
+                    }
+                }
+            }
+        }
+    } else {
+        let mut bases: Vec<[usize; 3]> = vec![[0, 1, 2], [n - 3, n - 2, n - 1], [0, 3.min(n - 2), n - 1], [2.min(n - 3), n - 2, n - 1]];
+        if n >= 7 {
+            bases.push([1, 5, 6]);
+        }
+        for base in bases {
+            if base[0] == base[1] || base[1] == base[2] || base[0] == base[2] {
+                continue;
+            }
+            for p in [[0usize, 1, 2], [0, 2, 1], [1, 0, 2], [1, 2, 0], [2, 0, 1], [2, 1, 0]] {
+                triples.push([base[p[0]], base[p[1]], base[p[2]]]);
+            }
+        }
+        triples.sort();
+        triples.dedup();
+    }
+    let mut v = Vec::new();
+    for tr in &triples {
+        for g in 0..256u32 {
+            v.push(TT::from_fn(n, |m| (g >> (((m >> tr[0]) & 1) | (((m >> tr[1]) & 1) << 1) | (((m >> tr[2]) & 1) << 2))) & 1 != 0));
+        }
+    }
+    dedup_sorted(v)
+}
+
 /// A small pool of second operands: named functions and the irregular tables.
 pub fn pool(n: usize, seed: u64) -> Vec<TT> {
     let mut v = named(n);
